@@ -122,6 +122,16 @@ class Model:
                 out.append(("move_in_dir", p, "empty"))
                 if "/" not in p:
                     out.append(("move_in_dir", p, "tree"))
+        for k, o in enumerate(self.outside):      # an entry that was moved out comes back, possibly elsewhere
+            if not o["alive"]:
+                continue
+            for p in (DIRS if o["kind"] == "d" else FILES):
+                if p in t or not self.isdir(parent(p)):
+                    continue
+                if any(((p + "/" + q) not in KIND or KIND[p + "/" + q] != kk) and not q.rsplit("/", 1)[-1].startswith("x")
+                       for q, kk in o["sub"].items()):
+                    continue
+                out.append(("move_back", k, p))
         if outside_ops:
             for k, o in enumerate(self.outside):
                 if o["kind"] == "d" and o["alive"]:
@@ -207,6 +217,19 @@ class Model:
                 t[op[1] + "/f"] = "f"
                 hot.add(op[1] + "/d")
             touched = {op[1]}
+        elif k == "mkdir_x":      # a directory outside the name universe (used by the vanish search only)
+            t[op[1] + "/x"] = "d"
+            hot = {op[1] + "/x"}
+            touched = {op[1] + "/x"}
+        elif k == "move_back":
+            o = self.outside[op[1]]
+            o["alive"] = False
+            t[op[2]] = o["kind"]
+            for q, kk in o["sub"].items():
+                t[op[2] + "/" + q] = kk
+            touched = {op[2]}
+            if o["kind"] == "d":
+                hot = {op[2]} | {op[2] + "/" + q for q, kk in o["sub"].items() if kk == "d"}
         elif k == "out_touch":
             self.outside[op[1]]["sub"]["x%d" % len(self.outside[op[1]]["sub"])] = "f"
         elif k == "out_rmtree":
@@ -229,11 +252,15 @@ def pacing_ok(hot, model_before, op):
     if k == "rmtree_root":
         return not hot
     paths = [x for x in op[1:] if isinstance(x, str) and (x in KIND)]
+    if k == "move_back":
+        paths = [op[2]]
     for p in paths:
         for h in hot:
             if inside(p, h):
                 return False
     if k in ("mknod", "mkdir", "move_in_file", "move_in_dir") and op[1] in hot:
+        return False
+    if k == "move_back" and (op[2] in hot or ("OUT:%d" % op[1]) in hot):
         return False
     if k == "makedirs" and ({op[1], parent(op[1])} & hot):
         return False
@@ -404,6 +431,10 @@ class HistoryHarness(ex.Harness):
                 os.mkdir(os.path.join(src, self.mapname("d")))
                 open(os.path.join(src, self.mapname("f")), "w").close()
             os.rename(src, P(op[1]))
+        elif k == "mkdir_x":
+            os.mkdir(P(op[1] + "/x"))
+        elif k == "move_back":
+            os.rename(state["out"][op[1]], P(op[2]))
         elif k == "out_touch":
             d = state["out"][op[1]]
             os.mknod(os.path.join(d, "x%d" % state["n"]))
@@ -455,9 +486,13 @@ class HistoryHarness(ex.Harness):
             def rec_into(lst):
                 class Rec(evm.FileSystemEventHandler):
                     def on_any_event(self, event):
+                        def under(p):   # textually under the watched path as it was given
+                            b = os.fsencode(p)
+                            return not b or b == given or b.startswith(given + b"/")
                         lst.append((cur["op"], type(event).__name__, rel(event.src_path), rel(event.dest_path),
                                     event.is_directory, event.is_synthetic,
-                                    type(event.src_path).__name__ + "/" + type(event.dest_path).__name__))
+                                    type(event.src_path).__name__ + "/" + type(event.dest_path).__name__,
+                                    under(event.src_path) and under(event.dest_path)))
                 return Rec()
 
             s.lib_creation = True
@@ -468,6 +503,9 @@ class HistoryHarness(ex.Harness):
                 root_arg = "R"
             elif cfg.root_form == "slash":
                 root_arg = R + "/"
+            elif cfg.root_form == "dot":
+                root_arg = os.path.join(base, ".", "R")
+            given = os.fsencode(root_arg).rstrip(b"/")
             if cfg.root_type == "bytes":
                 root_arg = os.fsencode(root_arg)
             elif cfg.root_type == "path":
@@ -585,7 +623,7 @@ def replay_events(tree0, events, recursive):
         for q in [q for q in t if q == p or inside(q, p)]:
             del t[q]
 
-    for _, cls, src, dest, is_dir, syn, _ty in events:
+    for _, cls, src, dest, is_dir, syn, *_rest in events:
         kind = "d" if is_dir else "f"
         if cls.endswith("CreatedEvent"):
             if src is not None and src != "" and not src.startswith("!"):
@@ -650,9 +688,12 @@ def check_probes(h, res):
     if v is None or v["root_gone"] or not v["probes"]:
         return out
     created = {(e[2]) for e in v["probe_events"] if e[1] == "FileCreatedEvent"}
+    silent = {d for d, p in v["probes"].items() if p not in created}
     for d, p in v["probes"].items():
         if h.cfg.recursive or d == "":
             if p not in created:
+                if d and parent(d) in silent and h.cfg.recursive:
+                    continue   # below a directory that is itself not covered: one root cause, reported there
                 wrong = [e[2] for e in v["probe_events"] if e[1] == "FileCreatedEvent" and e[2] and
                          e[2].rsplit("/", 1)[-1] == p.rsplit("/", 1)[-1]]
                 kind = "probe-wrong-path" if wrong else "probe-missing"
@@ -851,9 +892,17 @@ def provenance(path, hist):
             origin = "move_in_dir"
             chain.append(("move_in_dir", pace))
             break
+        elif k == "move_back" and (p == op[2] or inside(p, op[2])):
+            origin = "move_back"
+            chain.append(("move_back", pace))
+            break
         elif k == "mkdir" and p == op[1]:
             origin = "mkdir"
             chain.append(("mkdir", pace))
+            break
+        elif k == "mkdir_x" and p == op[1] + "/x":
+            origin = "mkdir"
+            chain.append(("mkdir_x", pace))
             break
         elif k == "makedirs" and (p == op[1] or p == parent(op[1])):
             origin = "makedirs"
@@ -999,7 +1048,8 @@ def replay_record(rec, checks):
     tag = rec.get("cfg", "rec-str")
     cfg = Config(recursive=not tag.startswith("flat"),
                  root_type="bytes" if "-bytes" in tag else ("path" if "-path" in tag else "str"),
-                 full="-full" in tag, root_form="rel" if "-rel" in tag else ("slash" if "-slash" in tag else "abs"),
+                 full="-full" in tag,
+                 root_form="rel" if "-rel" in tag else ("slash" if "-slash" in tag else ("dot" if "-dot" in tag else "abs")),
                  names=(tag.split("-names:")[1].split("-")[0] if "-names:" in tag else "ascii"),
                  second_filter=(tag.split("-filter=")[1].split("-faults")[0].split("+") if "-filter=" in tag else None),
                  early="-early" in tag, split_reads="-split" in tag)
@@ -1041,6 +1091,11 @@ class _DevHarness(HistoryHarness):
                 v["tree0"] = self.tree0
                 v["history"] = [[list(op), pace] for op, pace in self.history]
                 v["cfg"] = self.cfg.tag()
+        if not vs and res.value is not None and res.cost > 0 and suspicious(res.value["book"]):
+            # not a verdict: a seed for continue_from_suspicious()
+            vs.append(dict(kind="suspicious-state", pseudo=True, msg="watch map disagrees with the kernel",
+                           fp="suspicious " + ex._digest(repr((res.value["model"], res.value["book"]))).hex(),
+                           tree0=self.tree0, history=[[list(op), pace] for op, pace in self.history], cfg=self.cfg.tag()))
         return vs
 
 
@@ -1067,6 +1122,19 @@ def deviation_search(ctx, checks, *, tier, respect_pacing, root_delete=False, ma
     if max_jobs:
         jobs = jobs[:max_jobs]
     ctx.explore_many(jobs, cap=150_000 if q else 5_000_000, selftest=False, workers=fs_workers(ctx))
+    seeds = take_suspicious(ctx)
+    cont_cfg = Config(early=True, split_reads=True, probes=True, outside_ops=outside_ops)
+    continue_from_suspicious(ctx, checks, seeds, cont_cfg, depth=2 if q else 3, cap=60_000 if q else 1_000_000,
+                             respect_pacing=respect_pacing)
+
+
+def take_suspicious(ctx):
+    """Remove the pseudo records from ctx.violations and return them as continuation seeds."""
+    seeds = []
+    for fp in [fp for fp, v in ctx.violations.items() if v.get("pseudo")]:
+        v = ctx.violations.pop(fp)
+        seeds.append((v["tree0"], [(tuple(op), p) for op, p in v["history"]], v.get("prefix") or []))
+    return seeds
 
 
 def check_alive_and_reported(h, res):
@@ -1088,8 +1156,11 @@ def check_alive_and_reported(h, res):
                                                                       f"history={h.name}", fp="emitter-alive-after-root-delete"))
         return out
     names = {e[2].rsplit("/", 1)[-1] for e in v["probe_events"] if e[1] == "FileCreatedEvent" and e[2]}
+    silent = {d for d, p in v["probes"].items() if p.rsplit("/", 1)[-1] not in names}
     for d, p in v["probes"].items():
         if (h.cfg.recursive or d == "") and p.rsplit("/", 1)[-1] not in names:
+            if d and parent(d) in silent:
+                continue   # below a directory that is itself not covered: one root cause, reported there
             out.append(dict(kind="change-unreported", msg=f"after the history a file created in directory '{d}' was not "
                                                           f"reported at all; history={h.name}; bookkeeping={v['book']}",
                             fp="probe-missing", detail=dict(dir=d)))
@@ -1230,6 +1301,9 @@ def contract(m, op, cfg):
     elif k == "move_in_dir":
         sub = {"d": "d", "f": "f"} if op[2] == "tree" else {}
         req, alw = arrive(op[1], "d", sub, moved_in=True)
+    elif k == "move_back":
+        o = m.outside[op[1]]
+        req, alw = arrive(op[2], o["kind"], dict(o["sub"]), moved_in=True)
     elif k in ("out_touch", "out_rmtree"):
         pass   # entries outside the watched scope: nothing may be reported
     elif k == "rmtree_root":
@@ -1266,6 +1340,11 @@ def check_contract(h, res):
         if e[1].startswith("Dir") != bool(e[4]):
             out.append(dict(kind="flavour-flag", msg=f"{e} has is_directory={e[4]}; history={h.name}", fp="flavour-flag"))
     # soundness
+    for e in evs:
+        if len(e) > 7 and not e[7]:
+            out.append(dict(kind="unjustified-event", msg=f"event {e} does not lie under the watched path as given; history={h.name}",
+                            fp=f"unjustified event: path not under the watched path as given (form={cfg.root_form})"))
+            break
     for e in evs:
         s_ = sig(e)
         if s_ not in allowed_union:
@@ -1387,6 +1466,11 @@ def check_paths(h, res):
                                                   f"{sorted(new)}; history={h.name}; events={v['events']}",
                             fp=f"path-name created events do not name the created entries ({h.history[0][0][0]}) names={h.cfg.names}"))
     for e in v["events"] + v["probe_events"]:
+        if len(e) > 7 and not e[7]:
+            out.append(dict(kind="path-name", msg=f"{e[1]} path is not the watched path (as given to schedule()) joined with a "
+                                                  f"relative name; event={e}; history={h.name}",
+                            fp=f"path-name not under the watched path as given ({e[1]}) form={h.cfg.root_form}"))
+            break
         tys = e[6].split("/")
         for which, val, ty in (("src_path", e[2], tys[0]), ("dest_path", e[3], tys[1])):
             if val is None:
@@ -1462,13 +1546,104 @@ def vanish_search(ctx, checks, *, tier):
                             jobs.append((H(t, hist, cfg), 1))
                     if depth == 0:
                         return
-                    for op in m.ops(outside_ops=False):
-                        if op[0] not in ("rmdir", "rmtree", "rename", "move_out", "mknod") or \
-                                (op[0] == "mknod" and op[1] != "d") or (op[0] == "rename" and m.tree.get(op[1]) != "d"):
-                            continue
+                    cands = [op for op in m.ops(outside_ops=False)
+                             if op[0] in ("rmdir", "rmtree", "rename", "move_out", "mknod")
+                             and not (op[0] == "mknod" and op[1] != "d") and not (op[0] == "rename" and m.tree.get(op[1]) != "d")]
+                    # something new appears inside a directory that is just being discovered
+                    cands += [("mkdir_x", d) for d, kk in m.tree.items() if kk == "d" and d + "/x" not in m.tree]
+                    for op in cands:
+                        if any(x.endswith("/x") for x in m.tree) and op[0] in ("rename", "rmtree", "move_out") \
+                                and any(inside(x, op[1]) for x in m.tree if x.endswith("/x")):
+                            continue   # keep the extra directory where the universe can still describe it
                         mm = m.copy()
                         mm.apply(op)
                         rec(mm, suffix + [op], depth - 1)
 
                 rec(m2, [], 2 if q else 3)
     ctx.explore_many(jobs, cap=300_000 if q else 6_000_000, selftest=False, workers=fs_workers(ctx))
+
+
+# =================================================================================================
+# continuation from suspicious drained states reached under a deviating schedule
+# =================================================================================================
+def suspicious(book):
+    """Does the library's watch map disagree with the kernel about a directory inside the tree?  (Not a verdict:
+    such a state is only a reason to look further - operations are appended until a property-level oracle fails.)"""
+    try:
+        for rows, fwd in book:
+            for lib, k in rows:
+                if k in ("<gone>", "<no-kernel-watch>") or str(k).startswith("OUT:"):
+                    continue
+                if lib != k:
+                    return True
+            for p, (lib, k) in fwd:
+                if p != lib and not str(k).startswith("OUT:") and k not in ("<gone>", "<no-kernel-watch>", "<unknown-wd>"):
+                    return True
+    except (TypeError, ValueError):
+        return False
+    return False
+
+
+def _run_cont(job):
+    tree0, hist, prefix, cfg_tag = job
+    cfg = _JOB["cont_cfg"]
+    h = HistoryHarness(tree0, hist, cfg)
+    try:
+        res = ex.run_one(h, bytes(prefix))
+    except vsched.DivergenceError:
+        return dict(vs=[], key=None, steps=0, name=h.name, diverged=True)
+    vs = []
+    for f in _JOB["checks"]:
+        vs.extend(f(h, res))
+    vs = [v for v in list(h.base_check(res)) + vs]
+    key = (res.value["model"], res.value["book"]) if res.value is not None else None
+    return dict(vs=vs, key=key, steps=res.steps, name=h.name, diverged=False)
+
+
+def continue_from_suspicious(ctx, checks, seeds, cfg, *, depth, cap, respect_pacing=True, label="continuation"):
+    """seeds: [(tree0, history, prefix)] - drained states reached under a deviating schedule whose watch map is
+    inconsistent.  Single operations (each drained) are appended breadth-first; the recorded choice prefix is replayed,
+    everything after it follows the default schedule."""
+    import multiprocessing
+
+    if not seeds:
+        ctx.parts.append(dict(part=label, seeds=0, executions=0))
+        return
+    _JOB.update(checks=checks, cont_cfg=cfg)
+    mp = multiprocessing.get_context("fork")
+    executions = 0
+    seen = set()
+    frontier = [(t, [(tuple(op), p) for op, p in hist], list(prefix)) for t, hist, prefix in seeds]
+    with mp.Pool(fs_workers(ctx), initializer=_init_pool, initargs=(mp.Value("i", 0),)) as pool:
+        for level in range(depth):
+            jobs = []
+            for t, hist, prefix in frontier:
+                m = Model(t)
+                for op, _ in hist:
+                    m.apply(op)
+                base = hist[:-1] + [(hist[-1][0], "drain")]
+                for b in bursts(m, 1, respect_pacing, outside_ops=cfg.outside_ops):
+                    jobs.append((t, base + b, prefix, cfg.tag()))
+            jobs = jobs[: max(0, cap - executions)]
+            nxt = []
+            for (t, hist, prefix, _), r in zip(jobs, pool.imap(_run_cont, jobs, chunksize=4)):
+                executions += 1
+                if r["diverged"]:
+                    continue
+                bad = False
+                for v in r["vs"]:
+                    bad = True
+                    v = dict(v)
+                    if not v.get("infra"):
+                        v["fp"] = classify(v, t, hist, cfg)
+                    v.update(prefix=list(prefix), harness=r["name"], tree0=t, history=[[list(op), p] for op, p in hist], cfg=cfg.tag())
+                    ctx.add_violation(v)
+                if not bad and r["key"] is not None and r["key"] not in seen:
+                    seen.add(r["key"])
+                    nxt.append((t, hist, prefix))
+            frontier = nxt
+            if not frontier or executions >= cap:
+                break
+    ctx.executions += executions
+    ctx.transitions += executions
+    ctx.parts.append(dict(part=label, seeds=len(seeds), depth=depth, executions=executions, distinct_states=len(seen)))
